@@ -50,6 +50,70 @@ func runC11(p *load.Program, r *core.Report) {
 	c11CacheDirection(p, r)
 	c11Composite(p, r)
 	byteOrderRule(p, r, "C11.E8 byte-order", "C11.E8", []string{"net/edf"}, 60)
+	c11NilVsEmpty(p, r)
+}
+
+// c11NilVsEmpty: E9 — nil and empty collections are kept apart. In every collection decoder (a
+// function of net/edf that builds its result with reflect.MakeMap/MakeMapWithSize/MakeSlice) a
+// collection that is present on the wire (its length field has been read) is decoded into a made
+// collection: every path from the length read to a successful return passes one of the Make calls.
+// (The nil marker returns before the length is read.)
+func c11NilVsEmpty(p *load.Program, r *core.Report) {
+	rule := "C11.E9 nil-vs-empty"
+	r.Floor(rule, 4)
+	isMake := func(in ssa.Instruction) bool {
+		cc := callCommon(in)
+		if cc == nil {
+			return false
+		}
+		sf := staticCallee(cc)
+		return sf != nil && sf.Pkg != nil && sf.Pkg.Pkg.Path() == "reflect" && (sf.Name() == "MakeMap" || sf.Name() == "MakeMapWithSize" || sf.Name() == "MakeSlice")
+	}
+	seq := map[string]int{}
+	for _, f := range funcsOfPkgs(p, "net/edf") {
+		hasMake := false
+		eachInstr(f, func(in ssa.Instruction) {
+			if isMake(in) {
+				hasMake = true
+			}
+		})
+		if !hasMake {
+			continue
+		}
+		eachInstr(f, func(in ssa.Instruction) {
+			c, ok := in.(*ssa.Call)
+			if !ok {
+				return
+			}
+			sf := staticCallee(c.Common())
+			if sf == nil || sf.Name() != "Uint32" || sf.Pkg == nil || sf.Pkg.Pkg.Path() != "encoding/binary" {
+				return
+			}
+			// only length reads that lead to a Make call
+			if reaches([]Point{after(in)}, nil, isMake) == nil {
+				return
+			}
+			fn := fname(f)
+			seq[fn]++
+			key := fmt.Sprintf("C11.E9|%s|length#%d", fn, seq[fn])
+			inst := "a collection present on the wire (length read) is decoded into a made collection on every successful path, also when its length is 0"
+			bad := reaches([]Point{after(in)}, isMake, func(i2 ssa.Instruction) bool {
+				ret, ok := i2.(*ssa.Return)
+				if !ok || len(ret.Results) < 3 {
+					return false
+				}
+				if errKind(ret.Results[len(ret.Results)-1]) != "nil" {
+					return false
+				}
+				return !isNilConst(ret.Results[0])
+			})
+			if bad != nil {
+				r.Bad(rule, key, fn, p.Pos(bad.Pos()), inst, "the successful return at "+p.Pos(bad.Pos())+" is reached without making the collection: an empty non-nil map/slice arrives as nil")
+			} else {
+				r.OK(rule, key, fn, p.Pos(in.Pos()), inst, "every successful return after the length read passes a reflect.Make* call")
+			}
+		})
+	}
 }
 
 // byteOrderRule: every fixed-width integer that crosses the wire is written and read big-endian —
